@@ -4,7 +4,7 @@
 use vcore::*;
 
 #[cfg(not(feature = "core"))]
-mod simd {
+pub mod simd {
     pub const VARIANT: &str = "simd";
     use ::glam_simd as glam;
     include!(concat!(env!("CARGO_MANIFEST_DIR"), "/../apisupport/api_support.rs"));
